@@ -123,6 +123,8 @@ structure FolderState where
   visible : Nat
   scanned : Bool
   files : List (String × FileState)
+  /-- `describe_state()["uuid"]`: which folder OBJECT this is (`none`: the state carries no uuid, `.get("uuid")` is None) -/
+  uid : Option Nat := none
   deriving Repr
 
 /-- inbound / outbound amounts (exact integers in a common unit with `speed`) -/
@@ -294,6 +296,8 @@ structure FolderObs where
   files : List FileObs
   /-- `cached_obs["health_status"]` -/
   cached : Nat := 0
+  /-- `_cached_uuid`: the folder object the cached health was read from (`none` before the first present observation) -/
+  cachedFor : Option Nat := none
   deriving Repr
 
 def FolderObs.default (o : FolderObs) : Val :=
@@ -309,9 +313,14 @@ def FolderObs.find (o : FolderObs) (st : SimState) : Option FolderState :=
   | none => none
   | some (h, fo) => (st.node h).bind (fun n => lookupS fo n.folders)
 
-/-- the `health_status` leaf computed by `observe` for a folder that is present -/
+/-- `same_folder = self._cached_uuid is None or folder_state.get("uuid") == self._cached_uuid` -/
+def FolderObs.sameFolder (o : FolderObs) (f : FolderState) : Bool := o.cachedFor.isNone || f.uid == o.cachedFor
+
+/-- the `health_status` leaf computed by `observe` for a folder that is present: the cached value only while no scan completed in
+this step AND the folder is the one the cache was read from (repair 59ceb16: a folder created under the name of a deleted one is
+another object, its own visible health is read) -/
 def FolderObs.health (o : FolderObs) (f : FolderState) : Nat :=
-  if o.scan then (if f.scanned then f.visible else o.cached) else f.health
+  if o.scan then (if !f.scanned && o.sameFolder f then o.cached else f.visible) else f.health
 
 def FolderObs.val (o : FolderObs) (st : SimState) : Val :=
   match o.find st with
@@ -319,11 +328,12 @@ def FolderObs.val (o : FolderObs) (st : SimState) : Val :=
   | some f => .dict ((.s "health_status", .int (o.health f)) ::
                      optEntry (!o.files.isEmpty) (.s "FILES") (.dict (enumFrom 1 (o.files.map (·.val st)))))
 
-/-- the object after `observe(state)`: the cache follows the value just reported -/
+/-- the object after `observe(state)`: the cache follows the value just reported and remembers which folder it was read from;
+nothing changes while the folder is not there (so the SAME folder, deleted and restored, keeps its last-scanned health) -/
 def FolderObs.next (o : FolderObs) (st : SimState) : FolderObs :=
   match o.find st with
   | none => o
-  | some f => { o with cached := o.health f }
+  | some f => { o with cached := o.health f, cachedFor := f.uid }
 
 /-! ## NICObservation (stateful: `nmne_inbound_last_step`, `nmne_outbound_last_step`) -/
 
